@@ -190,6 +190,14 @@ def corpus():
                                  ['see'], ['ext'], ['see']], xt='tAxt0', cookie='c=tAc')]),
         dict(_arr(2, [_call(1, 'tA', [['ext'], ['see'], ['call', _call(0, 'tB', [['see'], ['ext'], ['see']], xt='tBxt0')], ['see']])],
              default=True), ctx_copy=True),
+        # user attributes set before a copy is made / forwarded, and set again on the copy and by the other application
+        _arr(2, [_call(0, 'tA', [['ext'], ['see'], ['copy'], ['see'], ['call_copy', 1, [['ext'], ['see']]], ['see']])]),
+        # a cookie on the default application's response, then a nested application redirects and re-sets / deletes
+        # that cookie on the redirect response (a copy): the outer response keeps its own cookie
+        _arr(2, [_call(0, 'tA', [['cookie', 'sid', 'tAsid'], ['see'],
+                                 ['call', _call(1, 'tB', [['redirect_cookie', '?to=tB', 'sid', 'set']])], ['see']])], default=True),
+        _arr(2, [_call(0, 'tA', [['cookie', 'sid', 'tAsid'],
+                                 ['call', _call(1, 'tB', [['redirect_cookie', '?to=tB', 'sid', 'delete']])], ['see']])], default=True),
         # redirect() works for the default application ...
         _arr(2, [_call(0, 'tA', [['see'], ['redirect', '?to=tA']])], default=True),
         # ... and (finding C10-redirect-default-app) reads the default application's request from any other one
@@ -277,7 +285,7 @@ def _body_kw(rng, tok, app, default):
 
 
 def _end_in_body_error(script):
-    while script and script[-1][0] in ('abort', 'boom', 'gen', 'redirect', 'see', 'ret', 'bad_status'):
+    while script and script[-1][0] in ('abort', 'boom', 'gen', 'redirect', 'redirect_cookie', 'see', 'ret', 'bad_status'):
         script = script[:-1]
     return [a for a in script if a[0] != 'form_see'] + [['body_read']]
 
@@ -311,6 +319,12 @@ def _gen_script(rng, tok, napps, depth, counter, busy=(), default=False):
             elif rng.random() < 0.3:
                 kw = dict(signed=True)
                 sub_script.insert(rng.randrange(len(sub_script)), ['sess_mutate'])
+            if not kw and rng.random() < 0.15:
+                # the outer response has a cookie; the nested handler redirects and re-sets / deletes that cookie on
+                # the redirect response it raises
+                script.append(['cookie', 'sid', tok + 'sid'])
+                sub_script = [a for a in sub_script if a[0] not in ('abort', 'boom', 'gen', 'redirect', 'ret', 'bad_status')]
+                sub_script.append(['redirect_cookie', '?to=' + sub, 'sid', rng.choice(['set', 'delete'])])
             nested = ['call', _call(j, sub, sub_script, **kw)]
             if rng.random() < 0.3:
                 # this application's listener stays registered while the other application serves and changes ITS environ
@@ -328,6 +342,10 @@ def _gen_script(rng, tok, napps, depth, counter, busy=(), default=False):
             if rng.random() < 0.5:
                 # the other application changes a header of the request IT serves (the forwarded copy)
                 cc[2] = [['req_set', 'HTTP_X_T', tok + 'ccxt'], ['see']] + cc[2]
+            if rng.random() < 0.6:
+                # user attributes: set here before the copy is made, set again by the application that serves the copy
+                script.append(['ext'])
+                cc[2] = cc[2] + [['ext'], ['see']]
             if rng.random() < 0.5:
                 cc.append({'hook_input': True})   # the other application's hook gives ITS request a new input stream
             script.append(cc)
@@ -680,7 +698,7 @@ def _redirect_outside_default_app(case, what, m):
         if c.get('construct'):
             return False
         for a in c['script']:
-            if a[0] == 'redirect' and not (case.get('default') and c['app'] == 0):
+            if a[0] in ('redirect', 'redirect_cookie') and not (case.get('default') and c['app'] == 0):
                 return True
             if a[0] == 'call' and walk(a[1]):
                 return True
